@@ -26,6 +26,8 @@ VOCAB = [
     # backslashes and backticks
     'c:\\dir', '\\n', 'a\\b', '\\1', '`', '``', 'a`b', '`x',
     # runs that mix the two underline characters, or an underline character with others: never a setext underline or a break
+    # delimiter-row look-alikes: no table when the line above has no pipe (one cell against two)
+    '-|-', '--|--', ':-|-:', '-|-|-',
     '=-=', '-=-', '=-', '-=', '==-', '--=', '=.=', '-_-', '*-*', '_*_',
     # misc
     "it's", '"q"', 'e.g.', 'i.e.', 'U.S.A.', 'http://x.y/z', 'www.x.org', 'a/b', 'a+b=c', '1+1=2', 'x=1', '--flag', '-o', 'C++', 'C#',
@@ -83,7 +85,10 @@ def not_inert_reason(lines):
         if i == 0 and cols >= 4:
             return 'indented code'
         if i > 0 and _DELIM_ROW.match(line):
-            return 'table delimiter row'
+            # a header line without any pipe has one cell: under a delimiter row of two or more cells it is no table header
+            # (GFM: the cell counts must agree); every other combination is left out (conservative)
+            if '|' in lines[i - 1] or len(re.findall(r':?-+:?', line)) < 2:
+                return 'table delimiter row'
         if line.endswith('\\'):
             return 'backslash hard break'
         if i > 0 and cols >= 4:
@@ -248,12 +253,12 @@ class C14(Prop):
 
     def selfcheck(self):
         """The inertness predicate must reject live constructs and accept plain tricky prose."""
-        live = [['a', '1. x'], ['a', '01) x'], ['a', '- x'], ['10. x'], ['    code'], ['a', '   - x'], ['a', ' ==='], ['a', '     -|-'], ['  > q'], ['# h'], ['a', '==='], ['- x'], ['1. x'], ['> q'], ['*a*'], ['a `b` c'], ['[a](b)'], ['a &amp; b'], ['a \\* b'],
+        live = [['a', '1. x'], ['a', '01) x'], ['a', '- x'], ['10. x'], ['    code'], ['a', '   - x'], ['a', ' ==='], ['a|b', '     -|-'], ['  > q'], ['# h'], ['a', '==='], ['- x'], ['1. x'], ['> q'], ['*a*'], ['a `b` c'], ['[a](b)'], ['a &amp; b'], ['a \\* b'],
                 ['<http://x.y>'], ['~~a~~ ~~'], ['***'], ['a', '|-|'], ['```'], ['a\\']]
         for lines in live:
             if not_inert_reason(lines) is None:
                 raise RuntimeError('inertness predicate accepts %r' % (lines,))
-        inert = [['a', '10. x'], ['a', '2) x', '100. y'], ['a', '1.'], ['a', '+'], ['a', '    > b'], ['a', '\t- b', '     # c'], [' a', '  b #'], ['snake_case 2*3 AT&T #tag'], ['a * b - c + d', '= e | f ~ g'], ['1.5 (a) 2)x', 'it\'s "q" 100%']]
+        inert = [['foo', 'bar', '-|-', 'baz|x'], ['a', '10. x'], ['a', '2) x', '100. y'], ['a', '1.'], ['a', '+'], ['a', '    > b'], ['a', '\t- b', '     # c'], [' a', '  b #'], ['snake_case 2*3 AT&T #tag'], ['a * b - c + d', '= e | f ~ g'], ['1.5 (a) 2)x', 'it\'s "q" 100%']]
         for lines in inert:
             if not_inert_reason(lines) is not None:
                 raise RuntimeError('inertness predicate rejects %r: %s' % (lines, not_inert_reason(lines)))
